@@ -212,7 +212,7 @@ func (w *lmWorker) start() (string, *lmm.Labels) {
 	must(err, "newrepo")
 	var o struct{ Root string }
 	json.Unmarshal(r.Bytes(), &o)
-	w.in = &lmm.Inst{N: w.n, G: w.g, Name: "seg", Root: o.Root}
+	w.in = &lmm.Inst{N: w.n, G: w.g, Name: "seg", Root: o.Root, BlocksDownres: w.cfg["MaxDownresLevel"] != "" && w.cfg["MaxDownresLevel"] != "0"}
 	must(w.in.Create(w.cfg), "create labelmap")
 	var blocks []int
 	for b := range w.g.Blocks {
